@@ -440,6 +440,18 @@ static int t_raw (const char *f, int budget)
         }
       free (buf); mpz_clear (x);
     }
+  /* longer bodies (header bytes >= 0x80 in the lower positions: 128 bytes and more), full image only */
+  for (int n = 1; n <= 70; n++)
+    for (int sg = 0; sg < 2; sg++)
+      {
+        mpz_t x, y; mpz_init2 (x, 64 * n); mpz_init (y);
+        for (int i = 0; i < n; i++) x->_mp_d[i] = rnd64 () | 1; x->_mp_size = sg ? -n : n;
+        char *buf = 0; size_t len = 0; FILE *fp = open_memstream (&buf, &len); size_t w = mpz_out_raw (fp, x); fclose (fp);
+        FILE *in = fmemopen (buf, len, "rb"); size_t r = mpz_inp_raw (y, in); long pos = ftell (in); fclose (in);
+        if (w != len || r != len || pos != (long) len || mpz_cmp (x, y))
+          { failed ("mpz_inp_raw"); printf (" %d-limb %s value: image of %zu bytes, out_raw returned %zu, inp_raw returned %zu (stream at %ld), value %s\n", n, sg ? "negative" : "positive", len, w, r, pos, mpz_cmp (x, y) ? "DIFFERS" : "equal"); return 1; }
+        free (buf); mpz_clear (x); mpz_clear (y);
+      }
   printf ("PASS %d\n", budget); return 0;
 }
 
